@@ -122,12 +122,14 @@ impl Property for C04 {
         // F-ROOT-TREE trigger: some concatenation (at any depth) begins with a rooted tree wildcard
         // that is followed by something
         fn rooted_first(e: &Expr) -> bool {
+            // a rooted tree wildcard that begins the expression, possibly through branches that
+            // begin it
             (matches!(e.first(), Some(Tok::Tree { lead: true, .. })) && e.len() > 1)
-                || e.iter().any(|t| match t {
-                    Tok::Alt(bs) => bs.iter().any(rooted_first),
-                    Tok::Rep { body, .. } => rooted_first(body),
+                || match e.first() {
+                    Some(Tok::Alt(bs)) => bs.iter().any(rooted_first),
+                    Some(Tok::Rep { body, .. }) => rooted_first(body),
                     _ => false,
-                })
+                }
         }
         let first_rooted_tree = rooted_first(&e);
         let top_rooted_tree = matches!(e.first(), Some(Tok::Tree { lead: true, .. })) && e.len() > 1;
@@ -208,6 +210,74 @@ impl Property for C04 {
             let plen = p.len();
             let mut spans: Vec<Option<(usize, usize)>> = Vec::new();
             let mut nonempty = false;
+            // Where the captured slices alias the candidate (the borrowed matched text does), their
+            // own positions are judged.  The API does not promise aliasing, though: if any capture
+            // lies elsewhere (an owning matched text, a static empty string for a group that did
+            // not take part), the captures are judged by content — the reference matcher must find
+            // *some* placement, in order and without overlap, of exactly these texts.
+            let aliasing = (1..=n).all(|i| match m.get(i) {
+                None => true,
+                Some(s) => {
+                    let off = (s.as_ptr() as usize).wrapping_sub(base);
+                    off <= plen && off + s.len() <= plen && &p[off..off + s.len()] == s
+                },
+            });
+            if !aliasing {
+                st.count("captures_judged_by_content");
+                let pc = to_chars(p);
+                let mut forced: Vec<Option<Vec<Vec<char>>>> = vec![None; e.len()];
+                for (k, ti) in cap_toks.iter().enumerate() {
+                    let s = match m.get(k + 1) {
+                        Some(s) => s,
+                        None => continue,
+                    };
+                    if !p.contains(s) {
+                        return Err(format!("`{}` on {:?}: capture {} = {:?} is not a substring of the path", text, p, k + 1, s));
+                    }
+                    match &e[*ti] {
+                        Tok::One | Tok::Zom { .. } | Tok::Class { .. } if s.contains('/') => {
+                            return Err(format!("`{}` on {:?}: capture {} of {:?} contains a separator: {:?}", text, p, k + 1, e[*ti], s));
+                        },
+                        Tok::Tree { .. } => {
+                            // the token may absorb a separator on either side that the capture leaves out;
+                            // an empty capture may also stand for a wildcard that did not take part
+                            let c: Vec<char> = s.chars().collect();
+                            let mut v = vec![c.clone()];
+                            let mut a = vec!['/'];
+                            a.extend(c.iter());
+                            v.push(a.clone());
+                            let mut b = c.clone();
+                            b.push('/');
+                            v.push(b);
+                            a.push('/');
+                            v.push(a);
+                            forced[*ti] = Some(v);
+                        },
+                        _ => forced[*ti] = Some(vec![s.chars().collect()]),
+                    }
+                }
+                let mut mm = Matcher::new(&pc, true);
+                mm.forced_text = Some(&forced);
+                let mut ok = mm.is_match(&e);
+                if !ok && first_rooted_tree && crate::findings::is_open("F-ROOT-TREE", "C04") {
+                    let mut mq = Matcher::new(&pc, true);
+                    mq.forced_text = Some(&forced);
+                    mq.quirks = Quirks { root_tree: true };
+                    if mq.is_match(&e) {
+                        ok = true;
+                        st.known("F-ROOT-TREE", || format!("`{}` on {:?}: captures {:?}", text, p, (1..=n).map(|i| m.get(i)).collect::<Vec<_>>()));
+                    }
+                }
+                if !ok {
+                    return Err(format!(
+                        "`{}` on {:?}: captures {:?} are not a valid decomposition of the path (no reference match lets the capturing sub-expressions consume these texts in order)",
+                        text,
+                        p,
+                        (1..=n).map(|i| m.get(i)).collect::<Vec<_>>()
+                    ));
+                }
+                continue;
+            }
             for i in 1..=n {
                 match m.get(i) {
                     None => {
@@ -216,9 +286,6 @@ impl Property for C04 {
                     },
                     Some(s) => {
                         let off = (s.as_ptr() as usize).wrapping_sub(base);
-                        if off > plen || off + s.len() > plen || &p[off..off + s.len()] != s {
-                            return Err(format!("`{}` on {:?}: capture {} = {:?} is not a substring of the path at its own position", text, p, i, s));
-                        }
                         if !s.is_empty() {
                             nonempty = true;
                         }
